@@ -375,6 +375,10 @@ void StateMachine::Impl::stop()
         return;
     }
 
+    //! an active sub state machine is stopped first, so that its current state is exited too
+    if (curr_state_->sub_sm != nullptr)
+        curr_state_->sub_sm->stop();
+
     ++cb_level_;
     if (curr_state_->exit_action)
         curr_state_->exit_action(Event());
